@@ -154,6 +154,12 @@ func checkLoop(l *loopInst) string {
 			return "FAIL C10 upload-without-local-change-or-startup"
 		}
 	}
+	if l.phantomStore {
+		l.phantomStore = false
+		if oracleFor("C09", "C12", "C05") {
+			return "FAIL snapshot-treated-as-stored-although-every-store-attempt-failed"
+		}
+	}
 	if l.earlyUpload {
 		l.earlyUpload = false
 		if oracleFor("C05") {
